@@ -81,7 +81,7 @@ def history_sims(rep, rng, quick, *, props, reals=("poly-frac", "poly-float"), c
         rep.add_tlc("ShapeSys-sim-history/" + un, r)
     # deterministic histories from the one-step rows: warm by one query, transform both operands
     # by the same generators, ask again (expected answers: the row's)
-    words = [("f1",), ("far",), ("r1",), ("rot4",), ("m1",), ("s1",), ("r1", "r1"), ("f1", "r1")]
+    words = [("f1",), ("far",), ("r1",), ("rot4",), ("m1",), ("twice",), ("s1",), ("twicefresh",), ("r1", "r1"), ("f1", "r1"), ("twice",), ("twicefresh",)]
     warms = ["aa", "ba", "ab", "bb"]
     hreals = list(reals) + ["sim-far3-float", "sim-far3-frac"]      # off-centre: a rotation about the origin moves the drawing away
     for un in (["U2nest", "U3dot", "U2cross", "U2notch", "U2corner"] if quick else U2 + ["U3dot", "U3hole", "U4nest"]):
@@ -218,6 +218,7 @@ def check_C01(tier, rng, rep):
         jobs += pair_jobs(U2, ["sim-mmu-float"], rng, per_universe=12, classes=("T",), opts=o)
         jobs += pair_jobs(U2, lambda k: [CURVED[k % 3]], rng, per_universe=20, classes=("T",), opts=o)
         jobs += pair_jobs(U3, lambda k: [(POLY + CURVED)[k % 6]], rng, per_universe=50, classes=("T",), opts=o)
+        jobs += pair_jobs(["U3far", "U3dot"], lambda k: [POLY[k % 3]], rng, per_universe=40, classes=("T",), opts=o, rowfilter=lambda u, r: r["reaches"])
     else:
         jobs += pair_jobs(U2, POLY + CURVED[:2], rng, opts=o)
         jobs += pair_jobs(U2, ["cubic-float", "poly-mixed", "poly-frac-rot", "sim-mmu-float"], rng, per_universe=150, classes=("T",), opts=o)
@@ -423,9 +424,11 @@ def check_C06(tier, rng, rep):
         rl = POLY + CURVED[:2] + ["sim-mmu-float", "sim-mmu-frac"]
         jobs += pair_jobs(U2, lambda k: [rl[k % 7]], rng, per_universe=70, classes=("T",), opts=o)
         jobs += pair_jobs(U3, lambda k: [rl[k % 7]], rng, per_universe=70, classes=("T",), opts=o)
+        jobs += pair_jobs(["U3far", "U3dot"], lambda k: [POLY[k % 3]], rng, per_universe=60, classes=("T",), opts=o, rowfilter=lambda u, r: r["reaches"])
     else:
         jobs += pair_jobs(U2, POLY + CURVED[:2] + ["sim-mmu-float", "sim-mmu-frac"], rng, classes=("T",), opts=o)
         jobs += pair_jobs(U2, ["cubic-float", "poly-mixed", "poly-frac-rot"], rng, per_universe=120, classes=("T",), opts=o)
+        jobs += pair_jobs(["U3far", "U3dot"], POLY + CURVED[:1], rng, classes=("T",), opts=o)
         jobs += pair_jobs(U3, lambda k: [(POLY + CURVED + EXTRA[:2] + ["sim-mmu-float", "sim-mmu-frac"])[k % 10]], rng, per_universe=1200, classes=("T",), opts=o)
     # singleton laws (identical boundaries): exact arithmetic on every universe; float polygons on
     # the two-atom universes, where every row has been surveyed (the failing ones are the recorded
@@ -552,7 +555,7 @@ def check_C10(tier, rng, rep):
     res = runner.pool_map(replay.run_case, jobs)
     # within a history every deviation from the model is a dependence on earlier calls: an object
     # changed by a call on another one (C08), a stale measure after a transformation (C04/C09)
-    rep.add_results("sim", res, props={"C10", "C08", "C04", "C09"})
+    rep.add_results("sim", res, props={"C10", "C08", "C04", "C09", "C01", "C03", "C06"})
     history_sims(rep, rng, quick, props=ALLP | {"C10"}, c10=True, num=100)
     # the same behaviours in fresh interpreters: other hash seeds, cold and pre-warmed
     # module-level memo tables; observation logs must be identical
@@ -1059,7 +1062,7 @@ def main(argv=None):
     try:
         # specification tables are produced (or read from the cache) once, in the parent,
         # before any worker process is forked
-        for un in U2 + U3 + ["U3dot"]:
+        for un in U2 + U3 + ["U3dot", "U3far"]:
             replay._tables(un)
             models.pair_rows(un)
         rc = CHECKS[a.prop](t, rng, rep)
